@@ -115,6 +115,7 @@ def compare(beh: list[dict]):
     was = gc.isenabled()
     gc.disable()
     w = World()
+    drift = None
     try:
         for i, e in enumerate(beh, 1):
             try:
@@ -127,9 +128,9 @@ def compare(beh: list[dict]):
                 if list(p[f]) != o[f]:
                     return (i, f, list(p[f]), o[f], False)
             for f in ("ntrk", "ncnt", "nwait"):
-                if p[f] != o[f]:
-                    return (i, f, p[f], o[f], True)
-        return None
+                if p[f] != o[f] and drift is None:
+                    drift = (i, f, p[f], o[f], True)   # internal table size only: keep going, a flag may differ later
+        return drift
     finally:
         w.A.clear()
         w.T.clear()
